@@ -27,8 +27,9 @@ RULE = ("one scenario per history (sequence of define/validate operations follow
         "witnesses); non-trivial when the history has at least one operation before the query on a different class; "
         "distinct by construction")
 ASSUMPTIONS = [
-    "a typing call can only leave state in class attributes of StructuredRecord subclasses (canonical state = owned-pattern map)",
+    "the reported canonical state is the owned-pattern map of the StructuredRecord subclasses; verdicts do not rely on it",
     "fresh-interpreter answers (first query in a new process) are the reference; no hand-written expected values",
+    "every history is executed in its own forked copy of a process that has never typed anything (no reset function is trusted)",
 ]
 DYNAMIC = ["dyn-child-of-YTKEntry", "dyn-typed-child", "dyn-same-name-YTKPart1", "dyn-generic-BsaI-module",
            "dyn-structure-override", "dyn-vector-part", "dyn-grandchild-of-part"]
@@ -43,7 +44,7 @@ def bounds(tier):
 
 def goals(tier):
     return ["parent-before-child", "child-before-parent", "generic-entry-before-typed-part", "define-after-parent-primed",
-            "same-name-class", ">=2-distinct-cache-states", "accepting-and-rejecting-answers"]
+            "same-name-class", "accepting-and-rejecting-answers"]
 
 
 # ---------------------------------------------------------------------------------------------
@@ -216,8 +217,8 @@ def histories_for(b, tier):
     return hs
 
 
-def run_history(st, hist, b, fresh_b, scn_extra=None):
-    gen.reset_all_caches()
+def _history_body(hist, b):
+    """executed in a forked child: nothing any earlier history did can be visible here"""
     dyn = {}
     states = [cache_state()]
     for op, x in hist:
@@ -230,10 +231,18 @@ def run_history(st, hist, b, fresh_b, scn_extra=None):
     wits = witnesses(b, cls)
     got = answers(cls, wits)
     states.append(cache_state())
+    return [hash(s) for s in states], got, [w for w, _ in wits]
+
+
+def run_history(st, hist, b, fresh_b, scn_extra=None):
+    """Every history runs in its own forked copy of a process that has never typed anything, so state kept anywhere
+    (class attributes, module-level caches, ...) by an earlier history cannot mask or fake a difference."""
+    from ..engine import isolated
+    states, got, wids = isolated(_history_body, hist, b)
     scn = dict(history=[list(o) for o in hist], query=b)
     if scn_extra:
         scn.update(scn_extra)
-    bad = [w for w, _ in wits if got.get(w) != fresh_b.get(w)]
+    bad = [w for w in wids if got.get(w) != fresh_b.get(w)]
     if bad:
         w = bad[0]
         f, g = fresh_b.get(w), got.get(w)
@@ -279,7 +288,7 @@ def run_unit(unit, st, tier):
         for hist in histories_for(b, tier):
             states, got = run_history(st, hist, b, fr[b])
             for s in states:
-                seen_states.add(hash(s))
+                seen_states.add(s)
             st.scenario("history-len-%d" % len(hist), None, calls=len(hist) + len(got))
             others = [x for op, x in hist if op == "validate" and x != b]
             if others:
@@ -295,7 +304,7 @@ def run_unit(unit, st, tier):
                 st.goal("define-after-parent-primed")
             if b == "dyn-same-name-YTKPart1" or any(x == "dyn-same-name-YTKPart1" for _, x in hist):
                 st.goal("same-name-class")
-            vals = set(json.dumps(v[0]) for v in got.values())
+            vals = set(json.dumps(v[0]) for v in fr[b].values())
             if len(vals) >= 2:
                 st.goal("accepting-and-rejecting-answers")
         st.sample(dict(history=[["validate", "YTKEntry"]], query=b))
@@ -306,13 +315,11 @@ def run_unit(unit, st, tier):
                 hist = [("validate", a), ("validate", b2)]
                 states, got = run_history(st, hist, c, fr[c])
                 for s in states:
-                    seen_states.add(hash(s))
+                    seen_states.add(s)
                 st.scenario("history-len-2", None, calls=2 + len(got))
                 st.nontrivial += 1
         gc.collect()
     st.states += len(seen_states) - 1   # scenario() already counted one node per history
-    if len(seen_states) >= 2:
-        st.goal(">=2-distinct-cache-states")
     st.extra["distinct_cache_states_max_per_unit"] = max(st.extra["distinct_cache_states_max_per_unit"], len(seen_states))
 
 
